@@ -67,6 +67,13 @@ CHECKS = {
             'whole-file line, stored tree and blank detection.',
             'ast.parse of the same interpreter is the reference; texts on which the parser itself hits RecursionError/'
             'MemoryError are skipped.', '3/C12'),
+    'C18': ('Generated programs (G-SYNTAX over every node kind, typed G-CS1 programs, corpus, AST mutations) plus a '
+            'complete sweep of every declared builtin function and type method; invariants: returns, completes for the '
+            'introductory subset, idempotent, history-independent within and across reports, lines in range',
+            'About 4.7k programs per quick run (190k thorough incl. small stdlib files); each is analysed six times in '
+            'three report histories and compared.',
+            'Introductory subset = what G-CS1 generates plus the builtin/method sweep; for arbitrary syntax only '
+            '"returns, deterministic, idempotent, lines in range" is asserted.', '3/C18'),
 }
 
 NOT_YET = {}
